@@ -51,11 +51,13 @@ class ConvSocket(sim.SimSocket):
     def readable(self):
         return self.conv.peer_ready(self)
 
-    def recv(self, n):
+    def recv(self, n, flags=0):
         import socket as _socket
         self.recv_calls += 1
         if self.closed:
             raise _socket.error('recv on closed socket')
+        if flags & _socket.MSG_WAITALL:
+            return sim.wait_all(self, n)
         return self.conv.peer_recv(self, n)
 
 
